@@ -52,6 +52,8 @@ var corpusScenarios = []corpusScenario{
 	{"update-order-in-removed-denom", false, corpusUpdateInRemovedDenom},
 	{"market-in-basket-denom", false, corpusMarketInBasketDenom},
 	{"credit-type-abbreviation-prefixes", false, corpusCreditTypePrefixes},
+	{"genesis-with-omitted-zero-amounts", false, corpusOmittedZeroAmounts},
+	{"markets-of-every-exponent", false, corpusMarketsOfEveryExponent},
 }
 
 func init() { QuickCounts["corpus"] = len(corpusScenarios) }
@@ -891,5 +893,79 @@ func corpusCreditTypePrefixes(c Cfg) *Result {
 	mk("CA", "CA03")
 	g.Commit()
 	g.GenesisRT("classes of three prefix-related credit types")
+	return g.Finish()
+}
+
+// ---- genesis-with-omitted-zero-amounts (C04 / C09) -------------------------------------------------------------
+// A hand-written genesis may omit the zero amount fields of balance and supply rows ("" means 0 and passes
+// ValidateGenesis; the repository's own test fixtures look like that).  Every handler that touches such a row must
+// treat the omitted fields as zero and must not disturb the fields that are present -- in particular the retired ones.
+
+func corpusOmittedZeroAmounts(c Cfg) *Result {
+	// stage: class, project, open batch bound to a contract; users 0..2 hold tradable and retired credits; a basket
+	staged := stage(nil, T0, func(a *chain.App) {
+		stageDo(a, "corpus", "allow polygon", a.MsgAddAllowedBridgeChain("polygon"))
+		stageDo(a, "corpus", "class", a.MsgCreateClass(0, []int{0}, "md", "C", coin("stake", 20000000)))
+		stageDo(a, "corpus", "project", a.MsgCreateProject(0, "C01", "md", "US", "REF", nil))
+		stageDo(a, "corpus", "batch", a.MsgCreateBatch(0, "C01-001", "", []*base.BatchIssuance{
+			a.Issuance(0, "100", "10", "US"), a.Issuance(1, "100", "7", "US"), a.Issuance(2, "50", "", "")},
+			"md", date(2020, 1, 1), date(2021, 1, 1), true, &base.OriginTx{Id: "0xstaged", Source: "polygon", Contract: ethAddr(5)}))
+		stageDo(a, "corpus", "basket", a.MsgBasketCreate(2, "OMT", "d", "C", []string{"C01"}, false, nil, sdk.NewCoins(sdk.NewInt64Coin("stake", 20000000))))
+		stageDo(a, "corpus", "put", a.MsgBasketPut(1, "eco.uC.OMT", chain.BasketCredit("C01-001-20200101-20210101-001", "20")))
+	})
+	// omit every amount field that is "0" in the balance and supply rows
+	strip := func(gen map[string]json.RawMessage) {
+		for _, table := range []string{"regen.ecocredit.v1.BatchBalance", "regen.ecocredit.v1.BatchSupply"} {
+			rows, _ := ecoTable(gen, table).([]interface{})
+			for _, r := range rows {
+				m, _ := r.(map[string]interface{})
+				for k, v := range m {
+					if s, ok := v.(string); ok && s == "0" && strings.HasSuffix(k, "_amount") {
+						delete(m, k)
+					}
+				}
+			}
+			patchEco(gen, table, rows)
+		}
+	}
+	strip(staged)
+	g := NewG(c, chain.Options{GenesisTime: T0.Add(time.Hour), Genesis: staged})
+	a := g.App
+	if len(a.ValidateGenesis(a.GenesisJSON())) == 0 {
+		g.bump("genesis-accepted:omitted-zero-amounts")
+	}
+	const denom = "C01-001-20200101-20210101-001"
+	g.Begin(g.now.Add(6 * time.Second))
+	g.Do(a.MsgMintBatchCredits(0, denom, []*base.BatchIssuance{g.iss(0, "5", "")}, &base.OriginTx{Id: g.txHash(), Source: "polygon"}), "mint tradable credits to user 0, who holds 10 retired and has no escrowed field")
+	g.Do(a.MsgMintBatchCredits(0, denom, []*base.BatchIssuance{g.iss(1, "1", "1")}, &base.OriginTx{Id: g.txHash(), Source: "polygon"}), "mint tradable and retired credits to user 1 (7 retired)")
+	g.Do(a.MsgBridgeReceive(0, "C01", &base.MsgBridgeReceive_Project{ReferenceId: "REF", Jurisdiction: "US", Metadata: "md"}, 0, "2", date(2020, 1, 1), date(2021, 1, 1), "md",
+		&base.OriginTx{Id: g.txHash(), Source: "polygon", Contract: ethAddr(5)}), "bridge receive into the same batch for user 0")
+	g.Do(a.MsgBasketTake(1, "eco.uC.OMT", "3000000", true, "US", "take"), "user 1 takes 3 credits with retire-on-take (7 retired before)")
+	g.Do(a.MsgSendCredits(2, 0, denom, "1", "1", "US", "gift"), "user 2 (no retired field) sends tradable and retired credits to user 0")
+	g.Do(a.MsgRetire(2, "US", "r", chain.Credits(denom, "1")), "user 2 retires 1")
+	g.Do(a.MsgCancel(2, "c", chain.Credits(denom, "1")), "user 2 cancels 1 (the supply row has no cancelled field)")
+	g.Do(a.MsgSell(0, chain.SellOrder(denom, "4", coin("stake", 10), true, nil)), "user 0 sells 4 (no escrowed field before)")
+	g.Commit()
+	g.GenesisRT("after handlers touched rows with omitted zero fields")
+	return g.Finish()
+}
+
+// ---- markets-of-every-exponent (C09) ------------------------------------------------------------------------------
+// Governance may allow ask denoms with any of the SI exponents (0, 1, 2, 3, 6, 9, ... 24); the first order in such a
+// denom creates the Market row.  Every row so created must pass the module's own genesis validation.
+
+func corpusMarketsOfEveryExponent(c Cfg) *Result {
+	g := NewG(c, chain.Options{GenesisTime: T0})
+	a := g.App
+	g.Begin(g.now.Add(6 * time.Second))
+	_, _, denom := g.corpusWorld()
+	for i, e := range []uint32{0, 1, 2, 3, 6, 9, 12, 15, 18, 21, 24} {
+		d := fmt.Sprintf("denom%d", e)
+		g.Do(a.MsgAddAllowedDenom(d, fmt.Sprintf("DISPLAY%d", e), e), fmt.Sprintf("gov: allow %s with exponent %d", d, e))
+		g.Do(a.MsgSell(i%NumUsers, chain.SellOrder(denom, "1", coin(d, 1000), true, nil)), fmt.Sprintf("first order priced in %s: creates its market", d))
+	}
+	g.Do(a.MsgAddAllowedDenom("denom7", "DISPLAY7", 7), "gov: exponent 7 is not an SI exponent (rejected)")
+	g.Commit()
+	g.GenesisRT("markets in denoms of every allowed exponent")
 	return g.Finish()
 }
